@@ -786,6 +786,11 @@ pub fn check_segment_pair(rng: &mut crate::util::Rng, st: &mut SweepStats) -> Re
         let pt_on = |t: f64| (t, k * t);
         let old = (pt_on(t0), pt_on(t1));
         let start = pt_on(tm);
+        // the products k*t must be exact, otherwise the three points are only nearly collinear (a nearly collinear
+        // overlap is outside the robust domains): verify with the exact predicate
+        if [old.0, old.1, start].iter().any(|p| orient((0.0, 0.0), (1.0, k), *p) != 0) {
+            return Ok(());
+        }
         let end = (start.0 + [1.0, 0.5, 7.0, 2.0f64.powi(-10)][rng.below(4) as usize], start.1 + (rng.range(-2000, 2000) as f64) / 64.0);
         let new = (start, end);
         return check_one_pair(old, new, rng.below(2) == 0, rng.below(2) == 0, st);
@@ -845,4 +850,22 @@ fn check_one_pair(old: Seg, new: Seg, subj_old: bool, subj_new: bool, st: &mut S
         }
     }
     Ok(())
+}
+
+#[cfg(test)]
+mod selftest {
+    use super::*;
+    #[test]
+    fn geometric_order() {
+        let s = ((0.0, 0.0), (10.0, 0.0));
+        assert_eq!(geo_order(s, ((2.0, 1.0), (5.0, 3.0))), Some(Ordering::Less));
+        assert_eq!(geo_order(s, ((2.0, -1.0), (5.0, -3.0))), Some(Ordering::Greater));
+        assert_eq!(geo_order(s, ((2.0, -1.0), (5.0, 3.0))), None); // crossing
+        assert_eq!(geo_order(s, ((12.0, 1.0), (15.0, 3.0))), None); // no common abscissa
+        assert_eq!(geo_order(s, ((0.0, 0.0), (5.0, 3.0))), Some(Ordering::Less)); // shared left endpoint
+        assert_eq!(geo_order(((3.0, 1.0), (3.0, 4.0)), s), Some(Ordering::Greater)); // vertical above
+        assert_eq!(geo_order(((3.0, 1.0), (3.0, 2.0)), ((3.0, 3.0), (3.0, 4.0))), Some(Ordering::Less));
+        assert!(lifetimes_overlap(s, ((2.0, 1.0), (5.0, 3.0))));
+        assert!(!lifetimes_overlap(s, ((10.0, 0.0), (12.0, 3.0))));
+    }
 }
